@@ -40,7 +40,32 @@ def nt_c03(tr):
             or has(tr, 13, lambda e: e[3] != 0)) and has(tr, 12)
 
 
+def nt_c14(tr):
+    # a liveness query issued after the addressed actor's task ended, with no await of that actor before the query
+    dead = set(); awaited = set(); h = {}
+    for e in tr:
+        if e[0] == 2:
+            h[e[1]] = e[2]
+        elif e[0] == 14:
+            dead.add(e[1])
+        elif e[0] == 5 and e[4] in (5, 6, 7):
+            awaited.add(h.get(e[3]))
+        elif e[0] == 38 and h.get(e[2]) in dead and h.get(e[2]) not in awaited:
+            return True
+        elif e[0] == 33 and dead:
+            return True
+    return False
+
+
 PROPS = {
+    "C14": {
+        "families": [("liveness-query", 900, 25000), ("registry-liveness", 500, 12000), ("faults", 200, 6000)],
+        "monitors": ["C14"],
+        "theorems": ["C14_truth"],
+        "nontrivial": nt_c14,
+        "rule": "cases generated from (family, VERIF_SEED, index); non-trivial = a stopped()/running() query (or a registry operation) is issued after the addressed actor's task ended while nobody had awaited that actor before; distinct = distinct case JSON",
+        "assumptions": ["'terminated' is witnessed by the end of the actor's task (EvTaskEnd), which is also when the notifier fires or is dropped"],
+    },
     "C03": {
         "families": [("lifecycle", 700, 20000), ("restart", 300, 8000), ("streams", 300, 8000), ("faults", 300, 8000)],
         "monitors": ["C03"],
@@ -67,6 +92,14 @@ COMMON_NOTE = ("Trusted: Coq kernel; the hand-written model's fidelity (checked 
                "No axioms. Real-thread races inside external crates and real wake-ups beyond the sampled cases are outside.")
 
 MANIFEST_TEXT = {
+    "C14": {
+        "text": "Theorem C14_truth (Coq, simulation): on every execution the model accepts, every stopped()/running() answer equals whether the addressed actor's task "
+                "has ended, independent of any await history. The registry's reactions to an un-awaited termination are part of the model's registry rules (C08) and are checked by correspondence "
+                "on the registry-liveness family. Correspondence + extracted acceptor chk_C14 + search acceptor on implementation traces on every run.",
+        "note": COMMON_NOTE,
+        "technique": "Rocq/Coq proof (simulation) over an executable model; correspondence by differential run of model and implementation",
+        "design_ref": "DESIGN.md section 6 C14",
+    },
     "C03": {
         "text": "Theorem C03_lifecycle (Coq, simulation between the model's loop phases and an explicit lifecycle automaton over observable events; "
                 "unbounded in actors, clients, restarts, trace length): every execution the model accepts is a run of the automaton "
